@@ -83,7 +83,7 @@ impl Monitor for C10 {
         vec![("histories", tier.pick(24_000, 480_000))]
     }
     fn rule(&self) -> &'static str {
-        "case i -> coupling accumulation (i mod 4: add, subtract, multiply, mean), optimizer kind (i/4 mod 5, state sized by set_optimizer), block representation (i/20 mod 2: dense body on a flat shape / convolution+deconvolution body on a spatial shape), loops 1..4, body of 1..3 layers with and without bias, block first / after a layer / followed by a dense layer, batch 1..8, 1..10 learn() calls of which some are exactly one optimizer step (epochs = 1, batch >= N) and some several steps. Invariant checked at every quiescent point (after creation, after installing weights, after EVERY learn() call): all unrolled repetitions of each body layer hold bit-identical weights, biases and kernels; and the `parameters:` line of Display equals the independently computed count with each shared parameter counted once. A panic inside learn() is a violation when it leaves the block partially updated (repetitions no longer identical); panics that leave the block tied are counted separately. Distinct = distinct configuration descriptors."
+        "case i -> coupling accumulation (i mod 4: add, subtract, multiply, mean), optimizer kind (i/4 mod 5, state sized by set_optimizer), block representation (i/20 mod 2: dense body on a flat shape / convolution+deconvolution body on a spatial shape, every third of those with deconvolution+max-pool pairs inside), loops 1..4, body of 1..3 layers with and without bias, block first / after a layer / followed by a dense layer, batch 1..8, 1..10 learn() calls of which some are exactly one optimizer step (epochs = 1, batch >= N) and some several steps. Invariant checked at every quiescent point (after creation, after installing weights, after EVERY learn() call): all unrolled repetitions of each body layer hold bit-identical weights, biases and kernels; and the `parameters:` line of Display equals the independently computed count with each shared parameter counted once. A panic inside learn() is a violation when it leaves the block partially updated (repetitions no longer identical); panics that leave the block tied are counted separately. Distinct = distinct configuration descriptors."
     }
     fn assumptions(&self) -> Vec<&'static str> {
         vec!["Overwrite coupling is `unimplemented!` in the library by documentation and is counted as unsupported, not generated", "non-finite weights (diverged training, e.g. additive coupling multiplies the weights by the loop count every step) end a history: NaN != NaN would make bit comparison meaningless"]
@@ -96,8 +96,12 @@ impl Monitor for C10 {
         let loops = rng.range(1, 4);
         let acts = [Act::Tanh, Act::Sigmoid, Act::Linear, Act::Leaky];
         let block_sh = if spatial { Sh::Sp(rng.range(1, 2), rng.range(2, 4), rng.range(2, 4)) } else { Sh::Flat(rng.range(1, 5)) };
-        let blen = rng.range(1, 3);
-        let body = preserving_body(&mut rng, block_sh, blen, &acts, false);
+        // every third spatial block may contain max-pool layers (deconvolution + max-pool pairs):
+        // they hold no parameters, but the layers around them do (creation-time tying and the
+        // parameter count; the library cannot train such blocks, which is counted below)
+        let with_pool = spatial && (idx / 40) % 3 == 2;
+        let blen = if with_pool { rng.range(2, 4) } else { rng.range(1, 3) };
+        let body = preserving_body(&mut rng, block_sh, blen, &acts, with_pool);
         let block = LCfg::Feedback { body, loops, inskips: rng.chance(0.3), outskips: rng.chance(0.3), acc };
         let position = rng.range(0, 2);
         let out_dense = LCfg::Dense { n: rng.range(1, 3), act: Act::Linear, bias: true, dropout: None };
